@@ -24,7 +24,8 @@ LEAN_TARGETS = ["Ipv8.C14.Props"]
 PROPS_FILE = "Ipv8/C14/Props.lean"
 DRIVER = "drv_c14"
 RULE = ("routing scenarios: own id + op sequence drawn from id classes {uniform, sharing a 0..159-bit prefix with the own id, "
-        "clustered around a foreign anchor, reduced width (top w bits free), re-added id}, rtt in 0..8, failed in 0..3; "
+        "clustered around a foreign anchor, reduced width (top w bits free), re-added id, re-added node OBJECT (stored / removed / evicted / refused earlier)}, rtt in 0..8, failed in 0..3, "
+        "7 contact-time classes (recent or not, independent of failed); "
         "distinct = distinct (own id, op list) digests; non-trivial = the scenario split at least one bucket and ran at "
         "least one closest_nodes query over a table with more than k live nodes.  trie cases: one per (trie contents, "
         "query/deletion); exhaustive part enumerates every subset of the keys of length <= L")
@@ -32,8 +33,9 @@ TRUSTED_BASE = [
     "tools/gen_c14.py: AST extraction of the routing constants and comparison operators",
     "hand-written model of Trie / Bucket / RoutingTable (Ipv8/C14/Model.lean), tied by the correspondence run; python dict "
     "insertion order of trie children is not modelled (values()/suffixes() are compared as sorted collections)",
-    "Node.id / Node.status / time.time are replaced by scripted values in the harness (ids are arbitrary 160-bit strings, "
-    "BAD iff failed >= threshold); calc_node_id (crc32/sha1) is outside the model",
+    "Node.id is scripted by the harness (arbitrary 160-bit strings); Node.status is the real property, driven through failed / "
+    "last_response / last_queries; the oracle's own notion of a dead node is failed >= 2 (BEP-5: failed multiple queries in a row), "
+    "independent of Node.status; calc_node_id (crc32/sha1) is outside the model",
 ]
 ASSUMPTIONS = [
     "identifiers added to one table all have the table's width (160 bits in the code)",
@@ -114,6 +116,32 @@ class FakeRandom:
         return 0.5
 
 
+DEAD_AFTER = 2   # "nodes become bad when they fail to respond to multiple queries in a row" (BEP-5, cited by Node.status):
+                 # the harness' own definition of a dead node, independent of Node.status: failed >= 2, whatever the last contact
+
+# contact classes: (last_response age in s or None=never, last_query age or None) -> recent contact?
+CONTACT = {0: (None, None), 1: (0, None), 2: (5000, None), 3: (5000, 0), 4: (None, 0), 5: (5000, 5000), 6: (0, 5000)}
+
+
+def contact_code(c):
+    return {True: 1, False: 0}.get(c, c) if isinstance(c, bool) else int(c)
+
+
+def is_recent(c) -> bool:
+    resp, query = CONTACT[contact_code(c)]
+    return (resp is not None and resp < 900) or (resp is not None and query is not None and query < 900)
+
+
+def script_contact(routing, n, c):
+    now = routing.time.time()
+    resp, query = CONTACT[contact_code(c)]
+    n.last_response = 0 if resp is None else now - resp
+    n.last_queries.clear()
+    if query is not None:
+        n.last_queries.append(now - query)
+    n.v_recent = is_recent(c)
+
+
 class Impl:
     """the real RoutingTable driven op by op; produces the canonical reply for every op and evaluates the oracle"""
 
@@ -134,6 +162,7 @@ class Impl:
             self.fail = ("RoutingTable.__init__:raises", f"constructing the table raised {type(e).__name__}: {str(e)[:120]}")
         self.splits = 0
         self.rich_query = False
+        self.objs = {}          # tag -> Node object ever handed to add (for re-adding the same object later)
 
     # -- oracle pieces ---------------------------------------------------------------------------------------
     def _fail(self, sig, what):
@@ -192,29 +221,36 @@ class Impl:
                     return self._fail("Bucket.add:node-outside-owner", f"{where}: node {ib[:24]}.. stored in bucket {k!r}")
                 if rt.get_bucket(n.id) is not b or rt.get(n.id) is not n:
                     return self._fail("RoutingTable.get_bucket:node-not-found", f"{where}: stored node {ib[:24]}.. is not found by get_bucket/get")
+                if n.bucket is not b:
+                    return self._fail("Bucket.add:stale-bucket-pointer", f"{where}: node {ib[:24]}.. is stored in bucket {k!r} but node.bucket is "
+                                                                          f"{getattr(n.bucket, 'prefix_id', None)!r}")
                 if n.id in seen:
                     return self._fail("RoutingTable.trie:duplicate-id", f"{where}: id {ib[:24]}.. stored twice")
                 seen[n.id] = n
         return None
 
     def brute_closest(self, target: int, k: int, excl):
-        BAD = self.routing.NODE_STATUS_BAD
-        live = [n for n in self.all_nodes() if n.status != BAD and (excl is None or n.id != excl)]
+        live = [n for n in self.all_nodes() if n.failed < DEAD_AFTER and (excl is None or n.id != excl)]
         live.sort(key=lambda n: int.from_bytes(n.id, "big") ^ target)
         return live, live[:k]
 
     # -- ops ---------------------------------------------------------------------------------------------------
     SITE = {"add": "RoutingTable.add", "set": "RoutingTable.get", "rmbad": "RoutingTable.remove_bad_nodes",
             "closest": "RoutingTable.closest_nodes", "get": "RoutingTable.get", "bucket": "RoutingTable.get_bucket",
-            "dump": "RoutingTable.trie", "genid": "Bucket.generate_id"}
+            "dump": "RoutingTable.trie", "genid": "Bucket.generate_id", "readd": "RoutingTable.add",
+            "status": "Node.status"}
 
     def fallback_line(self, op):
         """the protocol line of an op computed without touching the code under test"""
         kind = op[0]
         if kind == "add":
-            return f"rt.add {bits(op[1])} {1 if op[2] >= 2 else 0} {op[3]} {op[4]} {self.ntag - 1}"
+            return f"rt.add {bits(op[1])} {op[2]} {1 if is_recent(op[5]) else 0} {op[3]} {op[4]} {self.ntag - 1}"
         if kind == "set":
-            return f"rt.set {bits(op[1])} {1 if op[2] >= 2 else 0} {op[3]}"
+            return f"rt.set {bits(op[1])} {op[2]} {1 if len(op) > 4 and op[4] is not None and is_recent(op[4]) else 0} {op[3]}"
+        if kind == "readd":
+            return f"rt.readd {op[1]}"
+        if kind == "status":
+            return f"rt.status {bits(op[1])}"
         if kind == "closest":
             return f"rt.closest {bits(op[1])} {op[2]} {bits(op[3]) if op[3] is not None else 'none'}"
         if kind in ("get", "bucket"):
@@ -241,15 +277,33 @@ class Impl:
         kind = op[0]
         rt = self.rt
         thr = 2
-        if kind == "add":
-            _, ident, failed, rtt, port, good = op[:6]
-            # optional 7th field: reuse the public key of the node object with that tag (same peer, other address/id)
-            n = node_cls()(self.ntag, ident, port, op[6] if len(op) > 6 else None)
-            self.ntag += 1
-            n.failed = failed
-            n.rtt = rtt
-            if good:
-                n.last_response = self.routing.time.time()
+        if kind in ("add", "readd"):
+            if kind == "add":
+                _, ident, failed, rtt, port, contact = op[:6]
+                # optional 7th field: reuse the public key of the node object with that tag (same peer, other address/id)
+                n = node_cls()(self.ntag, ident, port, op[6] if len(op) > 6 else None)
+                self.objs[n.tag] = n
+                self.ntag += 1
+                n.failed = failed
+                n.rtt = rtt
+                script_contact(self.routing, n, contact)
+            else:
+                # the very same python object that was handed to add earlier (stored, evicted, removed or refused since);
+                # when it is not in the table at the moment its failure count / rtt / contact times may have moved on
+                _, tag, failed, rtt, contact = op
+                if not self.objs:
+                    return "rt.get " + bits(self.me), "none" if rt.get(self.me.to_bytes(W // 8, "big")) is None else "some"
+                n = self.objs[sorted(self.objs)[tag % len(self.objs)]]
+                ident = int.from_bytes(n.id, "big")
+                port = n.address[1]
+                if rt.get(n.id) is not n:
+                    if failed is not None:
+                        n.failed = failed
+                    if rtt is not None:
+                        n.rtt = rtt
+                    if contact is not None:
+                        script_contact(self.routing, n, contact)
+                failed, rtt = n.failed, n.rtt
             nkeys = len(self.keys())
             try:
                 res = rt.add(n)
@@ -260,32 +314,50 @@ class Impl:
                 self._fail("RoutingTable.add:no-termination", f"op {idx}: add({bits(ident)[:24]}..) recursed without end")
                 res = "fuel"
             self.splits += max(0, len(self.keys()) - nkeys)
-            line = f"rt.add {bits(ident)} {1 if n.status == self.routing.NODE_STATUS_BAD else 0} {rtt} {port} {n.tag}"
+            line = f"rt.add {bits(ident)} {failed} {1 if n.v_recent else 0} {rtt} {port} {n.tag}"
             if isinstance(res, str):
                 return line, res
             if res is None:
+                if kind == "readd" and self.fail is None:
+                    self.check_tree(f"op {idx} (re-add refused)")
                 return line, "none"
             if rt.get(res.id) is not res or res.id != n.id:
                 self._fail("RoutingTable.add:returned-node-not-stored", f"op {idx}: add returned a node that the table does not hold under that id")
+            if kind == "readd" and self.fail is None:
+                self.check_tree(f"op {idx} (re-add of the object with tag {n.tag})")
             return line, f"stored {res.tag} {res.address[1]}"
         if kind == "set":
-            _, ident, failed, rtt = op
+            _, ident, failed, rtt = op[:4]
+            contact = op[4] if len(op) > 4 else None
             n = rt.get(ident.to_bytes(W // 8, "big"))
-            bad = failed >= thr
+            recent = is_recent(contact) if contact is not None else False
             if n is not None:
                 n.failed = failed
                 n.rtt = rtt
-                bad = n.status == self.routing.NODE_STATUS_BAD
-            return f"rt.set {bits(ident)} {1 if bad else 0} {rtt}", "ok"
+                if contact is not None:
+                    script_contact(self.routing, n, contact)
+                recent = n.v_recent
+            return f"rt.set {bits(ident)} {failed} {1 if recent else 0} {rtt}", "ok"
+        if kind == "status":
+            _, ident = op
+            n = rt.get(ident.to_bytes(W // 8, "big"))
+            if n is None:
+                return f"rt.status {bits(ident)}", "none"
+            st = n.status
+            if (st == self.routing.NODE_STATUS_BAD) != (n.failed >= DEAD_AFTER):
+                self._fail("Node.status:failed-node-not-bad",
+                           f"op {idx}: stored node with failed={n.failed}, last response {self.routing.time.time() - n.last_response:.0f}s ago "
+                           f"reports status {st} (BAD is {self.routing.NODE_STATUS_BAD})")
+            return f"rt.status {bits(ident)}", str(st)
         if kind == "rmbad":
             before = self.all_nodes()
-            BAD = self.routing.NODE_STATUS_BAD
-            expect = sorted(n.tag for n in before if n.status == BAD)
+            expect = sorted(n.tag for n in before if n.failed >= DEAD_AFTER)
             removed = rt.remove_bad_nodes()
             got = sorted(n.tag for n in removed)
-            left = [n for n in self.all_nodes() if n.status == BAD]
+            left = [n for n in self.all_nodes() if n.failed >= DEAD_AFTER]
             if got != expect or left:
-                self._fail("RoutingTable.remove_bad_nodes:wrong-set", f"op {idx}: removed tags {got}, BAD tags were {expect}, BAD nodes left {len(left)}")
+                self._fail("RoutingTable.remove_bad_nodes:wrong-set",
+                           f"op {idx}: removed tags {got}; nodes with {DEAD_AFTER}+ failures in a row were {expect}; such nodes left: {[n.tag for n in left]}")
             return "rt.rmbad", "[" + ",".join(map(str, got)) + "]"
         if kind == "closest":
             _, target, k, excl = op
@@ -358,6 +430,17 @@ class Impl:
                 self.routing.random = saved
             return f"rt.genid {pb(k)} {W} {r}", rep
         raise ValueError(kind)
+
+
+def readd_after_split_ops():
+    """a node object is stored, removed as BAD, its old bucket is split by later insertions, the object comes back"""
+    ops = [("add", (i << (W - 4)) | 1, 0, 1, 1 + i, 1) for i in (0, 1, 2, 3, 4, 8, 9, 10)]      # root bucket full
+    ops += [("set", (2 << (W - 4)) | 1, 2, 1, 1), ("rmbad",)]                                        # tag 2 leaves
+    ops += [("add", (i << (W - 4)) | 1, 0, 1, 20 + i, 1) for i in (5, 6, 7, 11)]                    # root splits ...
+    ops += [("add", (i << (W - 5)) | 1, 0, 1, 40 + i, 1) for i in (1, 3, 5, 7, 9)]                  # ... and "0" splits
+    ops += [("dump",), ("readd", 2, 0, None, 1), ("dump",), ("get", (2 << (W - 4)) | 1),
+            ("closest", (2 << (W - 4)) | 1, 3, None), ("readd", 2, None, None, None), ("readd", 0, None, None, None), ("dump",)]
+    return ops
 
 
 def run_ops(me: int, m, ops, upto=None):
@@ -433,9 +516,23 @@ def gen_scenario(ctx: Ctx, rng, n_ops: int, profile: str):
         replies.append(rep)
         ctx.count("op:" + op[0])
 
+    contacts = [0, 1, 1, 1, 2, 3, 4, 5, 6]
     for i in range(n_ops):
         x = rng.random()
-        if x < 0.68:
+        if x < 0.07 and im.objs:
+            # hand an object back to add that add has seen before (as the community does with nodes taken from the table)
+            stored_tags = {n.tag for n in im.all_nodes()}
+            away = [t for t in im.objs if t not in stored_tags]
+            tag = rng.choice(away) if away and rng.random() < 0.8 else rng.choice(list(im.objs))
+            obj = im.objs[tag]
+            live_buckets = {id(b) for _, b in im.keys()}
+            ctx.count("readd:" + ("object-currently-stored" if tag in stored_tags else
+                                  "object-never-stored" if obj.bucket is None else
+                                  "object-removed,old-bucket-still-in-tree" if id(obj.bucket) in live_buckets else
+                                  "object-removed,old-bucket-was-split"))
+            do(("readd", tag, rng.choice([None, 0, 0, 1, 2]), rng.choice([None, None, 0, 1, 3, 8]), rng.choice([None] + contacts)))
+            ctx.count("readd-result:" + replies[-1].split(" ")[0])
+        elif x < 0.68:
             ident, cls = gen_id(rng, me, state)
             ctx.count("id:" + cls)
             failed = rng.choice([0, 0, 0, 0, 1, 2, 3])
@@ -447,14 +544,16 @@ def gen_scenario(ctx: Ctx, rng, n_ops: int, profile: str):
                     same_key = rng.choice(stored).tag
                     ctx.count("add:same-public-key-as-stored-node")
             if same_key is None:
-                do(("add", ident, failed, rtt, rng.randrange(1, 60000), rng.random() < 0.6))
+                do(("add", ident, failed, rtt, rng.randrange(1, 60000), rng.choice(contacts)))
             else:
-                do(("add", ident, failed, rtt, rng.randrange(1, 60000), rng.random() < 0.6, same_key))
+                do(("add", ident, failed, rtt, rng.randrange(1, 60000), rng.choice(contacts), same_key))
+            ctx.count("node:failed=%d,%s" % (failed, "recent-contact" if is_recent(ops[-1][5]) else "no-recent-contact"))
             ctx.count("add:" + replies[-1].split(" ")[0])
             if replies[-1].startswith("stored") and len(state["ids"]) < 4000:
                 state["ids"].append(ident)
         elif x < 0.78 and state["ids"]:
-            do(("set", rng.choice(state["ids"]), rng.choice([0, 1, 2, 3]), rng.choice([0, 1, 2, 4, 5, 8, 16])))
+            do(("set", rng.choice(state["ids"]), rng.choice([0, 1, 2, 3]), rng.choice([0, 1, 2, 4, 5, 8, 16]),
+                rng.choice([None, None] + contacts)))
         elif x < 0.80:
             do(("rmbad",))
         elif x < q_closest:
@@ -467,9 +566,12 @@ def gen_scenario(ctx: Ctx, rng, n_ops: int, profile: str):
             ctx.count("closest-target:" + cls)
             ctx.count("closest-k:%d" % k)
             ctx.count("closest-returned:%d" % (replies[-1].count(",") + 1 if replies[-1] != "[]" else 0))
-        elif x < 0.95:
+        elif x < 0.94:
             ident, _ = gen_id(rng, me, state)
             do(("get", ident))
+        elif x < 0.955 and state["ids"]:
+            do(("status", rng.choice(state["ids"])))
+            ctx.count("status-reply:" + replies[-1])
         elif x < 0.97:
             ident, _ = gen_id(rng, me, state)
             do(("bucket", ident))
@@ -591,7 +693,7 @@ def small_scope(ctx: Ctx, w: int, length: int, m: int, mes, use_model=True):
         for seq in itertools.product(range(len(ids)), repeat=length):
             ops = []
             for j, a in enumerate(seq):
-                ops.append(("add", ids[a], 2 if (j + a) % 5 == 4 else 0, (a * 3 + j) % 4, 1 + j, True))
+                ops.append(("add", ids[a], 2 if (j + a) % 5 == 4 else 0, (a * 3 + j) % 4, 1 + j, (1, 3, 0)[(a + j) % 3]))
             ops.append(("dump",))
             for t in (ids[seq[0]], ids[-1 - seq[-1]]):
                 ops.append(("closest", t, 1 + (seq[0] % 3), None))
@@ -811,6 +913,13 @@ def generate(ctx: Ctx):
 
 def known_regressions(ctx: Ctx, use_model=True):
     """fixed scenarios that once failed (kept small; always run first)"""
+    ops = readd_after_split_ops()
+    im, lines, replies = run_ops(0, None, ops)
+    ctx.case(("regression", "readd"), nontrivial=True, n=len(ops))
+    if im.fail is not None:
+        report_failure(ctx, im, 0, None, ops)
+    if use_model:
+        compare(ctx, lines, replies, {"kind": "routing", "me": 0, "m": None, "ops": [list(o) for o in ops]})
     # refresh ids of buckets below the root (section 6 item 9)
     me = int("101" + "0" * (W - 3), 2)
     ops = [("add", (i << (W - 5)) | 1, 0, 1, 1 + i, True) for i in range(20)]
@@ -888,10 +997,44 @@ def genid_draws(routing, b, prefix, draws, seed):
     return None
 
 
+def status_grid(ctx: Ctx, use_model=True):
+    """Node.status for every failure count 0..4 x every contact class, against the model and against the harness' own
+    reading of "live": a node that failed DEAD_AFTER queries in a row is BAD whatever its last contact was"""
+    from ipv8.dht import routing
+    lines, replies = [], []
+    for failed in range(5):
+        for c in CONTACT:
+            n = node_cls()(0, 0, 1)
+            n.failed = failed
+            script_contact(routing, n, c)
+            try:
+                st = n.status
+            except Exception as e:
+                ctx.oracle_fail("Node.status:raises", f"failed={failed}, contact class {CONTACT[c]}: {type(e).__name__}: {e}",
+                                {"kind": "status", "failed": failed, "contact": c})
+                st = "raised:" + type(e).__name__
+            if st != "raised" and (st == routing.NODE_STATUS_BAD) != (failed >= DEAD_AFTER):
+                ctx.oracle_fail("Node.status:failed-node-not-bad",
+                                f"a node with failed={failed} and (last_response age, last_query age)={CONTACT[c]} reports status {st}; "
+                                f"BAD={routing.NODE_STATUS_BAD} is expected exactly for failed >= {DEAD_AFTER}",
+                                {"kind": "status", "failed": failed, "contact": c})
+            lines.append(f"node.status {failed} {1 if is_recent(c) else 0}")
+            replies.append(str(st))
+            ctx.case(("status", failed, c), nontrivial=failed >= DEAD_AFTER and is_recent(c))
+            ctx.count("status-grid:%s" % st)
+    if use_model and ctx.model_ok:
+        model = ctx.driver().batch(lines)
+        for ln, a, b in zip(lines, model, replies):
+            if a != b:
+                ctx.disagree(f"Node.status: `{ln}`: model {a!r} != implementation {b!r}", {"kind": "status-line", "line": ln})
+                break
+
+
 def run(ctx: Ctx):
     if ctx.replay_input is not None:
         return replay(ctx, ctx.replay_input)
     known_regressions(ctx)
+    status_grid(ctx)
     genid_sweep(ctx, factor=ctx.scale(4, 64))
     trie_exhaustive(ctx, ctx.scale(2, 3))
     trie_random(ctx, ctx.scale(300, 6000))
@@ -899,13 +1042,14 @@ def run(ctx: Ctx):
     if ctx.thorough():
         small_scope(ctx, 2, 5, 1, [0, 3 << (W - 2), (1 << W) - 1])
         small_scope(ctx, 4, 3, 3, [0, 9 << (W - 4)])
-    routing_scenarios(ctx, ctx.scale(28, 300), [60, 150, 150, 300, 400, 700])
+    routing_scenarios(ctx, ctx.scale(24, 300), [60, 150, 150, 300, 400, 700])
     routing_scenarios(ctx, ctx.scale(1, 10), [2000, 2600])
 
 
 def search(ctx: Ctx, reason: str):
     """implementation-only, bounded (about one more quick run); stops at the first failing input"""
     known_regressions(ctx, use_model=False)
+    status_grid(ctx, use_model=False)
     genid_sweep(ctx, use_model=False, factor=16)
     if ctx.failures:
         return
@@ -933,6 +1077,17 @@ def replay(ctx: Ctx, rec: dict):
             print("replay: property holds on this input")
         ctx.case(("replay",), True)
         compare(ctx, lines, replies, {"kind": "routing", "me": r["me"], "m": r.get("m")})
+    elif r.get("kind") == "status":
+        from ipv8.dht import routing
+        n = node_cls()(0, 0, 1)
+        n.failed = r["failed"]
+        script_contact(routing, n, r["contact"])
+        st = n.status
+        ok = (st == routing.NODE_STATUS_BAD) == (r["failed"] >= DEAD_AFTER)
+        print(f"replay: node failed={r['failed']} contact ages={CONTACT[contact_code(r['contact'])]} -> status {st}; property {'holds' if ok else 'FAILS'}")
+        if not ok:
+            ctx.oracle_fail("Node.status:failed-node-not-bad", "replayed input still fails", r)
+        ctx.case(("replay",), True)
     elif r.get("kind") in ("genid", "genid-scripted"):
         from ipv8.dht import routing
         b = routing.Bucket(r["prefix"])
